@@ -146,8 +146,15 @@ def r4(src, counts):
 
 
 def r5(src, counts):
-    src, k = re.subn(r'(\n\s*)const NUM_BITS: usize =', r'\1exec const NUM_BITS: usize =', src)
-    counts['R5.exec_const'] += k
+    # associated const initialised by an exec call -> zero-argument fn with the same body
+    # (Verus cannot attach a spec to an associated exec const); uses `Self::X` -> `Self::X()`
+    def assoc(mo):
+        counts['R5.assoc_const_fn'] += 1
+        return '%s#[allow(non_snake_case)]%sfn %s() -> %s { %s }' % (mo.group(1), mo.group(1), mo.group(2), mo.group(3), mo.group(4))
+    src, k = re.subn(r'(\n[ \t]+)const (NUM_BITS): (usize) = ([^;]+);', assoc, src)
+    if k:
+        src, k2 = re.subn(r'\bSelf::NUM_BITS\b(?!\()', 'Self::NUM_BITS()', src)
+        counts['R5.assoc_const_use'] += k2
     # consts initialised by an exec call
     src, k = re.subn(r'(?m)^((?:pub(?:\([a-z]+\))? )?)const (\w+: [^=\n]+= [\w:<>]+::new\()', r'\1exec const \2', src)
     counts['R5.exec_const'] += k
@@ -221,21 +228,21 @@ def r9(src, counts):
         body = src[ob + 1:cb]
         mb = m[ob + 1:cb]
         nb = []
-        last = 0
         depth = 0
-        # field starts: at depth 0, identifier followed by ':' at line start
-        for fm in re.finditer(r'(?m)^(\s*)((?:pub\s+)?)(\w+)\s*:', mb):
-            # check depth 0
-            pre = mb[:fm.start()]
-            if pre.count('{') != pre.count('}') or pre.count('<') - pre.count('->') != pre.count('>') - pre.count('->'):
-                continue
-            if fm.group(2):
-                continue
-            nb.append(body[last:fm.start(3)])
-            nb.append('pub ')
-            last = fm.start(3)
-            counts['R9.pub_field'] += 1
-        nb.append(body[last:])
+        for line in mb.split('\n'):
+            pass
+        pos = 0
+        lines_m = mb.split('\n')
+        lines_s = body.split('\n')
+        for lm_, ls_ in zip(lines_m, lines_s):
+            fm = re.match(r'(\s*)(\w+)\s*:(?!:)', lm_)
+            if depth == 0 and fm and fm.group(2) not in ('pub',):
+                nb.append(ls_[:fm.start(2)] + 'pub ' + ls_[fm.start(2):])
+                counts['R9.pub_field'] += 1
+            else:
+                nb.append(ls_)
+            depth += lm_.count('{') - lm_.count('}')
+        nb = ['\n'.join(nb)]
         out.append(src[i:ob + 1] + ''.join(nb))
         i = cb
     out.append(src[i:])
